@@ -128,8 +128,8 @@ example : (decodeFrame (Reader.new 16384) [0, 0, 4, 3, 0, 0, 0, 0, 0, 0, 0, 0, 8
 example : (decodeFrame (Reader.new 16384) [0, 0, 8, 7, 0, 0, 0, 0, 1, 0, 0, 0, 0, 0, 0, 0, 0]).2 matches DF.err (.goAway 1 "") := rfl
 /-- whereas PRIORITY on stream 0 is caught here -/
 example : (decodeFrame (Reader.new 16384) [0, 0, 5, 2, 0, 0, 0, 0, 0, 0, 0, 0, 1, 16]).2 matches DF.err (.goAway 1 "") := rfl
-/-- PUSH_PROMISE carrying only the promised id (block to follow in CONTINUATION): valid per §6.6,
-    connection error PROTOCOL_ERROR from `decode_frame` (see `loadPushPromiseHead_four_octets`) -/
-example : (decodeFrame (Reader.new 16384) [0, 0, 4, 5, 0, 0, 0, 0, 1, 0, 0, 0, 2]).2 matches DF.err (.goAway 1 "") := rfl
+/-- PUSH_PROMISE carrying only the promised id (block to follow in CONTINUATION), valid per §6.6: used to
+    be a connection error (`src.len() < 5` in `PushPromise::load`); now stored as a partial block -/
+example : (decodeFrame (Reader.new 16384) [0, 0, 4, 5, 0, 0, 0, 0, 1, 0, 0, 0, 2]).2 matches DF.none := rfl
 
 end H2V.Lemmas.Codec
